@@ -1,16 +1,28 @@
 import Dhcp.Driver.V4
+import Dhcp.Driver.Label
+import Dhcp.Driver.Raw
+import Dhcp.Driver.V4Acc
+import Dhcp.Driver.V6
+import Dhcp.Driver.Client
+import Dhcp.Driver.Server
+import Dhcp.Driver.Misc
 /-
   Line protocol driver: one operation per input line, one canonical line out.
   `lake build dhcp-driver` compiles it; the Go harness pipes the same lines
   it executes against the real library and diffs the two output streams.
+  Each family of operations lives in its own `Dhcp/Driver/<Family>.lean`
+  exporting `step<Family> : String → List String → Option String`.
 -/
 open Dhcp.Driver
+
+def families : List (String → List String → Option String) :=
+  [stepV4, stepLabel, stepRaw, stepV4Acc, stepV6, stepClient, stepServer, stepMisc]
 
 def step (line : String) : String :=
   match (line.trimAscii.toString.splitOn " ").filter (· ≠ "") with
   | [] => "bad-op"
   | op :: args =>
-    match stepV4 op args with
+    match families.findSome? (fun f => f op args) with
     | some s => s
     | none => "bad-op"
 
